@@ -689,7 +689,7 @@ def replay_decompose(ctx, hists, quick):
                   for c in (True, False) for mr in (True, False)
                   for rg, mb in (('full', 8), ('covered', 0), ('covered', 1), ('partial', 1))
                   for qq in (((0, 0), (1, 0), (0, 1), (2, 1)) if c else ((0, 0),)) for ue in (False, True)]
-        take = rng.sample(qr_all, 4 if quick else 8)
+        take = rng.sample(qr_all, 3 if quick else 8)
         plans += [('decompose_theta_qr_based', dict(p, phases=rng.choice([0, 1 + idx]))) for p in take]
         for fn, p in plans:
             try:
@@ -896,7 +896,7 @@ def check(ctx):
     stages = []
     if quick:
         stages.append(('enum-abs', base_consts(Vals={0, 1, 2, 3}, MaxLen=4, Modes={'abs'},
-                                               **option_sets('abs', (4, 3, 3, 3, 5), rng))))
+                                               **option_sets('abs', (4, 3, 3, 3, 4), rng))))
         stages.append(('enum-rel', base_consts(Vals={1, 2, 3, 4}, MaxLen=4, Modes={'rel'},
                                                **option_sets('rel', (3, 2, 3, 3, 4), rng))))
         stages.append(('enum-unsorted', base_consts(Vals={0, 1, 2}, MaxLen=4, SortedOnly=False, Modes={'abs'},
@@ -925,7 +925,7 @@ def check(ctx):
     if not only or 'algebra' in only:
         if quick:
             consts = base_consts(Vals={0, 1, 2}, MaxLen=2, SortedOnly=False, Modes={'rel'}, ChiMaxOpts={N, (1,)},
-                                 CutOpts={N, (1, 5)}, MaxAcc=2, AlgVals={0, 1, 2}, ThetaIds={1, 3})
+                                 CutOpts={N, (1, 5)}, MaxAcc=2, AlgVals={0, 1, 2, 3}, ThetaIds={1, 3})
         else:
             consts = base_consts(Vals={0, 1, 2}, MaxLen=2, SortedOnly=False, Modes={'rel'}, ChiMaxOpts={N, (1,)},
                                  DegOpts={N, (101, 100)}, CutOpts={N, (1, 5)}, MaxAcc=3,
@@ -941,7 +941,7 @@ def check(ctx):
                 if h[-1]['l']['op'] != 'add':
                     continue
                 # chains of length >= 2 always, single additions for a seeded share
-                if len(h) < 4 and (j + ctx.seed) % 4:
+                if len(h) < 4 and (j + ctx.seed) % 2:
                     continue
                 replay_chain(ctx, h, 'mc%d' % j)
                 nch += 1
